@@ -614,25 +614,24 @@ def event_inputs_to_events(
                 "Make sure the input array only contains unique event types."
             )
         event = Event(eventInput.eventType)
+        # use the update methods so that the logic gate tree of a loaded
+        # event is marked stale and recalculated even if no new evidence
+        # arrives for it
         for eventSetList in eventInput.outgoingEventSets:
-            event.event_sets.add(
-                EventSet(
-                    [
-                        eventSet.eventType
-                        for eventSet in eventSetList
-                        for _ in range(eventSet.count)
-                    ]
-                )
+            event.update_event_sets(
+                [
+                    eventSet.eventType
+                    for eventSet in eventSetList
+                    for _ in range(eventSet.count)
+                ]
             )
         for eventSetList in eventInput.incomingEventSets:
-            event.in_event_sets.add(
-                EventSet(
-                    [
-                        eventSet.eventType
-                        for eventSet in eventSetList
-                        for _ in range(eventSet.count)
-                    ]
-                )
+            event.update_in_event_sets(
+                [
+                    eventSet.eventType
+                    for eventSet in eventSetList
+                    for _ in range(eventSet.count)
+                ]
             )
         events[eventInput.eventType] = event
     return events
